@@ -655,7 +655,7 @@ var summaryNet = map[string]Summary{
 	// func (r *Request) WithContext(ctx context.Context) *Request
 	"(*net/http.Request).WithContext": {
 		[][]int{{0}, {1}}, // context does not taint receiver
-		[][]int{{0}, {1}},
+		[][]int{{0}, {0}},
 	},
 	// func Parse(rawURL string) (*URL, error)
 	"net/url.Parse": {
@@ -988,7 +988,7 @@ var summaryStrings = map[string]Summary{
 	// func Join(elems []string, sep string) string {
 	"strings.Join": {
 		[][]int{{0}, {1}},
-		[][]int{{0}, {1}},
+		[][]int{{0}, {0}},
 	},
 	// func LastIndex(s string, substr string) int
 	"strings.LastIndex": {
